@@ -468,6 +468,9 @@ pub enum Mutation {
     MissingEntry,
     /// malformed clause texts: index into MALFORMED
     Malformed(u8),
+    /// a block of types around an interface that itself has submodules (one of an instantiated generic type), gates,
+    /// a cluster and a connection; the argument differs from the interface by delta `k` (index into DEEP_DELTAS)
+    DeepConformance(u8),
 }
 
 const MALFORMED_TYPES: [&str; 6] = ["A(B", "A(T <-", "A()", "T0(", "(", "A(T <- B"];
@@ -646,6 +649,11 @@ fn mutate(doc: &Doc, r: &mut RDoc, m: &Mutation, site: usize) -> Option<Vec<&'st
             r.entry = "NoSuchEntry".into();
             Some(vec!["UnknownModule"])
         }
+        Mutation::DeepConformance(k) => {
+            let delta = DEEP_DELTAS[*k as usize % DEEP_DELTAS.len()];
+            deep_block(r, delta);
+            Some(vec![if delta.conforms() { "OK" } else { "AssignedTypDoesNotConformToInterface" }])
+        }
         Mutation::Malformed(k) => {
             let k = *k as usize;
             let i = site % nm;
@@ -672,6 +680,142 @@ fn mutate(doc: &Doc, r: &mut RDoc, m: &Mutation, site: usize) -> Option<Vec<&'st
             Some(vec!["*"])
         }
     }
+}
+
+// ------------------------------------------------------------------------------------------
+// interface conformance below the first level
+
+/// How the type argument `KArg` differs from the interface `KIface` it is checked against.
+#[derive(Clone, Copy, Debug, PartialEq)]
+pub enum DeepDelta {
+    /// a verbatim copy of the interface: conforms
+    Same,
+    /// the interface plus one more gate, submodule and connection: conforms
+    Superset,
+    /// `w: KWrap(KY)` where the interface has `w: KWrap(KX)`
+    NestedArgument,
+    /// `v: KY` where the interface has `v: KX`
+    SubmoduleType,
+    /// the gate `ig` is missing
+    GateMissing,
+    /// `ic[3]` where the interface has `ic[2]`
+    GateSize,
+    /// the submodule `w` is called `w2`
+    SubmoduleName,
+    /// `w[2]` where the interface has `w`
+    SubmoduleCardinality,
+    /// the interface's connection `ig <-> v/p` is missing
+    ConnectionMissing,
+    /// the connection exists but without the interface's link
+    ConnectionLink,
+}
+impl DeepDelta {
+    fn conforms(self) -> bool {
+        matches!(self, DeepDelta::Same | DeepDelta::Superset)
+    }
+}
+pub const DEEP_DELTAS: [DeepDelta; 10] = [
+    DeepDelta::Same,
+    DeepDelta::Superset,
+    DeepDelta::NestedArgument,
+    DeepDelta::SubmoduleType,
+    DeepDelta::GateMissing,
+    DeepDelta::GateSize,
+    DeepDelta::SubmoduleName,
+    DeepDelta::SubmoduleCardinality,
+    DeepDelta::ConnectionMissing,
+    DeepDelta::ConnectionLink,
+];
+const DEEP_SYMBOLS: [&str; 7] = ["KBase", "KX", "KY", "KWrap", "KIface", "KArg", "KHost"];
+
+/// Appends the block and instantiates `kh: KHost(KArg)` in the entry module. `KHost` wires its own gate `out` through the
+/// placeholder down to `s/w/c/x`, a gate that only exists when the argument really has `w: KWrap(KX)`.
+fn deep_block(r: &mut RDoc, d: DeepDelta) {
+    let m = |key: &str, inherit: Option<&str>, gates: &[&str], subs: &[(&str, &str)], conns: &[(&str, &str, Option<&str>)]| RMod {
+        key: key.into(),
+        inherit: inherit.map(Into::into),
+        gates: gates.iter().map(|g| g.to_string()).collect(),
+        subs: subs.iter().map(|(a, b)| (a.to_string(), b.to_string())).collect(),
+        conns: conns.iter().map(|(a, b, l)| (a.to_string(), b.to_string(), l.map(Into::into))).collect(),
+    };
+    r.links.push(("KL".into(), vec![("latency".into(), "0.25".into()), ("jitter".into(), "0".into()), ("bitrate".into(), "5000".into())]));
+    r.mods.push(m("KBase", None, &["p"], &[], &[]));
+    r.mods.push(m("KX", Some("KBase"), &["x"], &[], &[]));
+    r.mods.push(m("KY", Some("KBase"), &["y"], &[], &[]));
+    r.mods.push(m("KWrap(T <- KBase)", None, &[], &[("c", "T")], &[]));
+    r.mods.push(m("KIface", None, &["ig", "ic[2]"], &[("w", "KWrap(KX)"), ("v", "KX")], &[("ig", "v/p", Some("KL"))]));
+    let mut gates = vec!["ig", "ic[2]"];
+    let mut subs = vec![("w", "KWrap(KX)"), ("v", "KX")];
+    let mut conns = vec![("ig", "v/p", Some("KL"))];
+    match d {
+        DeepDelta::Same => {}
+        DeepDelta::Superset => {
+            gates.push("more");
+            subs.push(("u", "KY"));
+            conns.push(("more", "u/y", None));
+        }
+        DeepDelta::NestedArgument => subs[0].1 = "KWrap(KY)",
+        DeepDelta::SubmoduleType => subs[1].1 = "KY",
+        DeepDelta::GateMissing => {
+            gates.remove(0);
+            conns.clear();
+        }
+        DeepDelta::GateSize => gates[1] = "ic[3]",
+        DeepDelta::SubmoduleName => subs[0].0 = "w2",
+        DeepDelta::SubmoduleCardinality => subs[0].0 = "w[2]",
+        DeepDelta::ConnectionMissing => conns.clear(),
+        DeepDelta::ConnectionLink => conns[0].2 = None,
+    }
+    r.mods.push(m("KArg", None, &gates, &subs, &conns));
+    r.mods.push(m("KHost(S <- KIface)", None, &["out"], &[("s", "S")], &[("s/w/c/x", "out", None)]));
+    let e = r.mods.iter().position(|x| x.key == r.entry).expect("entry module");
+    r.mods[e].subs.push(("kh".into(), "KHost(KArg)".into()));
+}
+
+/// What the block denotes below the entry module when the argument conforms.
+fn deep_denote(d: DeepDelta, root: &str, ex: &mut Expect) {
+    let kh = join(root, "kh");
+    let s = join(&kh, "s");
+    let (w, v) = (join(&s, "w"), join(&s, "v"));
+    let c = join(&w, "c");
+    for (p, sym) in [(&kh, "KHost"), (&s, "KArg"), (&w, "KWrap"), (&c, "KX"), (&v, "KX")] {
+        ex.modules.insert(p.to_string(), sym.to_string());
+    }
+    let mut gate = |m: &str, g: &str, n: usize| {
+        for i in 0..n {
+            ex.gates.insert((m.to_string(), g.to_string(), n, i));
+        }
+    };
+    gate(&kh, "out", 1);
+    gate(&s, "ig", 1);
+    gate(&s, "ic", 2);
+    for m in [&c, &v] {
+        gate(m, "p", 1);
+        gate(m, "x", 1);
+    }
+    let kl = Some((5000usize, std::time::Duration::from_millis(250).as_nanos(), 0u128, 0usize));
+    let mut conn = |a: (&str, &str), b: (&str, &str), l| {
+        let (a, b) = ((a.0.to_string(), a.1.to_string(), 0usize), (b.0.to_string(), b.1.to_string(), 0usize));
+        let (x, y) = if a <= b { (a, b) } else { (b, a) };
+        ex.conns.insert((x, y, l));
+    };
+    conn((&s, "ig"), (&v, "p"), kl);
+    conn((&c, "x"), (&kh, "out"), None);
+    if d == DeepDelta::Superset {
+        let u = join(&s, "u");
+        ex.modules.insert(u.clone(), "KY".into());
+        for i in 0..1 {
+            ex.gates.insert((s.clone(), "more".into(), 1, i));
+            ex.gates.insert((u.clone(), "p".into(), 1, i));
+            ex.gates.insert((u.clone(), "y".into(), 1, i));
+        }
+        let (a, b) = ((s.clone(), "more".to_string(), 0usize), (u, "y".to_string(), 0usize));
+        let (x, y) = if a <= b { (a, b) } else { (b, a) };
+        ex.conns.insert((x, y, None));
+    }
+    ex.has_generic = true;
+    ex.has_inherit = true;
+    ex.has_nested_conn = true;
 }
 
 // ------------------------------------------------------------------------------------------
@@ -899,6 +1043,14 @@ pub fn run_case(case: &Case) -> Result<(bool, Vec<&'static str>), Failure> {
     };
     let text = yaml(&r);
     let res = elaborate(&text)?;
+    let deep_ok = match (&expected_err, &case.mutation) {
+        (Some(kinds), Some((Mutation::DeepConformance(k), _))) if kinds.contains(&"OK") => Some(DEEP_DELTAS[*k as usize % DEEP_DELTAS.len()]),
+        _ => None,
+    };
+    let expected_err = if deep_ok.is_some() { None } else { expected_err };
+    if matches!(case.mutation, Some((Mutation::DeepConformance(_), _))) {
+        labels.push("interface-with-submodules");
+    }
     if let Some(kinds) = expected_err {
         labels.push("mutated");
         match res {
@@ -932,6 +1084,9 @@ pub fn run_case(case: &Case) -> Result<(bool, Vec<&'static str>), Failure> {
     };
     let mut ex = Expect::default();
     denote(&doc, doc.entry, None, "", &doc.types[doc.entry].name, &mut ex);
+    if let Some(d) = deep_ok {
+        deep_denote(d, "", &mut ex);
+    }
     CREATED.with(|c| c.borrow_mut().clear());
     let mut sim = Sim::new(());
     let mut reg = Registry::new()
@@ -942,7 +1097,14 @@ pub fn run_case(case: &Case) -> Result<(bool, Vec<&'static str>), Failure> {
         .symbol::<RecMod>("T4")
         .symbol::<RecMod>("T5")
         .symbol::<RecMod>("T6")
-        .symbol::<RecMod>("T7");
+        .symbol::<RecMod>("T7")
+        .symbol::<RecMod>(DEEP_SYMBOLS[0])
+        .symbol::<RecMod>(DEEP_SYMBOLS[1])
+        .symbol::<RecMod>(DEEP_SYMBOLS[2])
+        .symbol::<RecMod>(DEEP_SYMBOLS[3])
+        .symbol::<RecMod>(DEEP_SYMBOLS[4])
+        .symbol::<RecMod>(DEEP_SYMBOLS[5])
+        .symbol::<RecMod>(DEEP_SYMBOLS[6]);
     let built = catch(|| sim.nodes_from_ndl(&def, &mut reg));
     let check = (|| -> Result<(), Failure> {
         match built {
@@ -1076,6 +1238,10 @@ impl Prop for C18 {
             Just(Mutation::TooManyArgs),
             Just(Mutation::MissingEntry),
             (0u8..11).prop_map(Mutation::Malformed),
+        ];
+        let m = prop_oneof![
+            5 => m,
+            1 => (0u8..DEEP_DELTAS.len() as u8).prop_map(Mutation::DeepConformance),
         ];
         (
             proptest::collection::vec(any::<u16>(), 0..160),
